@@ -176,10 +176,22 @@ def run(chk):
     expr = r.value
     if isinstance(expr, ast.Name):
       src = [x for x in v.assigned_from(expr.id)]
-      if len(src) != 1 or not isinstance(src[0], ast.AST):
-        raise AnalysisError('PredicateSql: returned name %s has no single '
+      if len(src) == 1 and isinstance(src[0], tuple) and isinstance(src[0][2], ast.Name):
+        # one element taken out of a local list: what the list is filled with
+        elems = _elements_of(v, src[0][2].id)
+        if not elems:
+          raise AnalysisError('PredicateSql: elements of %s not recognised' % src[0][2].id)
+        src = elems
+      if not src or not all(isinstance(x, ast.AST) for x in src):
+        raise AnalysisError('PredicateSql: returned name %s has no recognised '
                             'definition' % expr.id)
-      expr = src[0]
+      if len(src) > 1:
+        # several definitions: each of them has to carry the clauses
+        missing = [x for x in src if not any(
+            isinstance(c, ast.Call) and OBCLAUSE in repo.resolve(v.fi, c) for c in walk_local(x))]
+        expr = missing[0] if missing else src[0]
+      else:
+        expr = src[0]
     ob = [c for c in walk_local(expr) if isinstance(c, ast.Call) and
           OBCLAUSE in repo.resolve(v.fi, c)]
     lim = [c for c in walk_local(expr) if isinstance(c, ast.Call) and
@@ -291,3 +303,19 @@ def run(chk):
       ok = any(isinstance(x, ast.Call) and call_tail(x) == 'ParseRule' for x in src)
       chk.ob('C18-R4', ok, None, 'annotations are derived from the rule ParseRule just returned',
              'AnnotationsFromDenotations is applied to %s' % norm(c, 60), fi=hv.fi, node=c)
+
+
+def _elements_of(v, name):
+  """Expressions a local list is filled with (append arguments, elements of a
+  comprehension / literal assigned to it)."""
+  out = []
+  for x in walk_local(v.fi.node):
+    if isinstance(x, ast.Call) and call_tail(x) == 'append' and \
+        isinstance(x.func, ast.Attribute) and dotted(x.func.value) == name and x.args:
+      out.append(x.args[0])
+    elif isinstance(x, ast.Assign) and any(dotted(t) == name for t in x.targets):
+      if isinstance(x.value, (ast.ListComp, ast.GeneratorExp)):
+        out.append(x.value.elt)
+      elif isinstance(x.value, (ast.List, ast.Tuple)):
+        out += list(x.value.elts)
+  return out
